@@ -23,7 +23,12 @@ Under contract (real AST, /repo/src/pyg_base/_cache.py, _decorators.py):
   kwargs_support.wrapped, ._args        f receives the positional arguments unchanged and exactly the keywords in getargs(f);
                                         known finding D8 (f declares **kwargs: undeclared keywords are dropped) is an expected-sat
                                         obligation with key C18:kwargs_support:varkw-drops-undeclared.
-  wrapper.__init__                      see wrapper_section: direct re-wrapping W(W(f)) and a chain W(V(W(f))).
+  cache                                 refuses methods (first parameter self / cls) with ValueError, else returns cache_func(function).
+  wrapper.__init__, ._kwargs            wrapper objects with identity (a heap of items): plain W(g), direct re-wrapping W(W(g)) - the function
+                                        is g, parameters {**inner, **outer} - and a chain W(V(W(g))) - the function is a copy of the V object
+                                        re-pointed at g, the argument objects are untouched (see wrapper_section).
+  wrapper.__call__                      with a function set, forwards to `wrapped` with the same positional / keyword containers
+                                        (for try_back, try_value, kwargs_support, cache_func).
 
 Assumed / bounded only: getargs (uninterpreted list of parameter names; getargspec / inspect), `getcallargs` vs `inspect.getcallargs`
 and call_with_callargs over all signature shapes (exhaustive over shapes in rac/C18.py), argspec forwarding, loops / pd2np
@@ -146,6 +151,13 @@ class Wrappers(Maps):
         return Maps.is_none(self, ex, st, v)
 
 
+def record_inlined(ctx, ex):
+    """every repo function whose statements were executed (directly or inlined at a call site) is listed in the evidence"""
+    for key, (mod, fdef) in ex.inline.items():
+        if any(isinstance(n, ast.stmt) and id(n) in ex.stmts_executed for n in ast.walk(fdef) if n is not fdef):
+            ctx.record_function(mod, key, fdef, ex.stmts_executed)
+
+
 def machinery(ctx):
     mc, mdec, mda, mt = ctx.mod('_cache'), ctx.mod('_decorators'), ctx.mod('_dictattr'), ctx.mod('_types')
     classes = {'dictattr': (mda, mda.func('dictattr'), 'dict'), 'wrapper': (mdec, mdec.func('wrapper'), 'dictattr'),
@@ -221,6 +233,7 @@ def cache_section(ctx, M):
     inst = th.inst(E)
     for ob in ex.obligations:
         ob.hyps = list(ob.hyps) + inst
+    record_inlined(ctx, ex)
     ctx.absorb(ex)
     ctx.record_function(mc, 'cache_func.wrapped', fdef, ex.stmts_executed)
     ctx.record_function(mc, 'cache_func._key', M['inline']['cache_func._key'][1], ex.stmts_executed)
@@ -311,6 +324,7 @@ def cache_decorator_section(ctx, M):
     inst = th.inst([first], [0])
     for ob in ex.obligations:
         ob.hyps = list(ob.hyps) + inst
+    record_inlined(ctx, ex)
     ctx.absorb(ex)
     ctx.record_function(mc, 'cache', fdef, ex.stmts_executed)
     is_method = And(LEN(P) > 0, Or(first == th.strv('self'), first == th.strv('cls')))
@@ -361,6 +375,7 @@ def try_value_section(ctx, M):
         inst = th.inst([])
         for ob in ex.obligations:
             ob.hyps = list(ob.hyps) + inst
+        record_inlined(ctx, ex)
         ctx.absorb(ex)
         ctx.record_function(mdec, 'try_value.wrapped', fdef, ex.stmts_executed)
         ctx.default_meta = dict(search_hints=[calls0 == 0, SL == 0] + ([rep >= 0, rep <= 3] if z3.is_expr(rep) else []))
@@ -428,6 +443,7 @@ def try_back_section(ctx, M):
     inst = th.inst(E, [0])
     for ob in ex.obligations:
         ob.hyps = list(ob.hyps) + inst
+    record_inlined(ctx, ex)
     ctx.absorb(ex)
     ctx.record_function(mdec, 'try_back.wrapped', fdef, ex.stmts_executed)
     ctx.default_meta = dict(search_hints=[LEN(A) <= 3, LEN(P) <= 3])
@@ -470,6 +486,7 @@ def kwargs_support_section(ctx, M):
     inst = th.inst(E)
     for ob in ex.obligations:
         ob.hyps = list(ob.hyps) + inst
+    record_inlined(ctx, ex)
     ctx.absorb(ex)
     ctx.record_function(mdec, 'kwargs_support.wrapped', fdef, ex.stmts_executed)
     ctx.record_function(mdec, 'kwargs_support._args', M['inline']['kwargs_support._args'][1], ex.stmts_executed)
@@ -706,6 +723,7 @@ def wrapper_section(ctx, M):
         inst = th.inst([K0])
         for ob in ex.obligations:
             ob.hyps = list(ob.hyps) + inst
+        record_inlined(ctx, ex)
         ctx.absorb(ex)
         ctx.record_function(mdec, 'wrapper.__init__', fdef, ex.stmts_executed)
         return th, ex, st, kw2, self_, heap0, outs, inst, originals
@@ -805,6 +823,7 @@ def wrapper_section(ctx, M):
             inst = th.inst([K0])
             for ob in ex.obligations:
                 ob.hyps = list(ob.hyps) + inst
+            record_inlined(ctx, ex)
             ctx.absorb(ex)
             ctx.record_function(mdec, 'wrapper.__call__', fcall, ex.stmts_executed, excluded=['decorator-factory path (function is None): constructs type(self)(function = args[0], **parameters)'])
             pre = 'wrapper.__call__.%s.' % cname
